@@ -39,12 +39,12 @@ ASSUMPTIONS = ['only schedules actually produced by the perturbation are checked
                'workers are killed only at claim boundaries, where no nutils lock is held; a hang is reported as inconclusive (bounded progress), never as a violation',
                'Linux fork + anonymous shared mmap; other platforms not covered',
                'O_APPEND single-write event records; per-process order is program order']
-BUDGET_S = {'quick': int(os.environ.get('C16_QUICK_BUDGET', 100)), 'thorough': int(os.environ.get('C16_THOROUGH_BUDGET', 1500))}
+BUDGET_S = {'quick': int(os.environ.get('C16_QUICK_BUDGET', 90)), 'thorough': int(os.environ.get('C16_THOROUGH_BUDGET', 1500))}
 GRACE_S = 150
 ENV = {'NUTILS_VERIF': ''}   # generated code exactly as in production (value-observer hook off)
 
 NS_ALL = [2, 3, 5, 8]
-PLAN = {'quick': dict(nprog=96, chunk=4, ntopo=20, tchunk=1, nfault=48, fchunk=3, npseeds=5, nns=2),
+PLAN = {'quick': dict(nprog=72, chunk=4, ntopo=16, tchunk=1, nfault=36, fchunk=3, npseeds=5, nns=2),
         'thorough': dict(nprog=800, chunk=5, ntopo=100, tchunk=2, nfault=600, fchunk=10, npseeds=6, nns=4)}
 FAULT_KINDS = ['raise', 'kill', 'kill_before', 'raise', 'kill', 'raise_parent']
 
